@@ -81,6 +81,35 @@ CHECKS["C05"] = dict(technique="TLA+ model checking (TLC): table enumeration + e
           "sequences, plus recycled-caller, swept-cache and vanish-during-walk variants."),
     note=TB + " The walk prunes at processes older than the caller (documented behaviour); parents() only on chains that reach a root.")
 
+CHECKS["C03"] = dict(technique="TLA+ model checking (TLC) of the error-translation trees over every placement of kernel phase changes; fault enumeration at every OS access of every Process query on the real code, each run judged by TLC against MidCallTrace.tla (trace validation)", category="model_checking", ref="DESIGN.md section 3 C03",
+    text=("MidCall.tla models a query as a sequence of classed OS accesses with the kernel moving the process alive -> "
+          "zombie -> gone at any instant (also between a failing access and the zombie / existence probes) and one refused "
+          "access, through wrap_exceptions, _raise_if_zombie, the issue-2418 existence probe and hit_enoent/_raise_if_not_alive; "
+          "TLC checks no bare OSError, NSP only if gone, ZP only if seen as zombie, AD only if denied, termination. On the real "
+          "code every access index of 40 method forms (all as_dict attributes, as_dict, children, parent(s), is_running, "
+          "process_iter(attrs), rlimit, cpu_affinity([]), wait(0)) gets vanish / zombie / EACCES / EPERM faults and "
+          "(deny i, vanish j) pairs over a fully populated simulated process (threads, descriptors, mappings, sockets, "
+          "children); each of the ~1-5k runs is logged and judged by TLC, including follow-up queries after the process is gone."),
+    note=TB + " Three signed findings (identity probe denied, ppid_map denied, /proc listing denied). Truncated records are out of scope (the quantifier's kernel never returns partial records).")
+CHECKS["C16"] = dict(technique="TLA+ model checking (TLC) of the memoize/oneshot algorithm at statement granularity with 1-3 threads; executions of the real code under a deterministic line-level thread scheduler (bounded pre-emptions) and random single-thread programs, each validated by TLC against OneshotTrace.tla; as_dict decision table enumerated by TLC and replayed", category="model_checking", ref="DESIGN.md section 3 C16",
+    text=("Oneshot.tla models both cache layers (front-end and platform), the three-case lookup, the tolerant store, "
+          "enter (lock, nested no-op, seven dict re-creations) and exit/raise (seven tolerant deletions) per statement, for four "
+          "thread programs; TLC checks no spurious error, the quiescent-floor version window on every call, block snapshot and "
+          "at-most-one-read on non-interfered blocks; a regression config shows the model raises the issue-1948 error without the "
+          "guard. The real code is run (a) on 1.5k-6k random single-thread programs with nesting, raising bodies and mid-call kernel "
+          "bumps and (b) under a CHESS-style scheduler that pre-empts real threads at every source line of psutil (<= 2, thorough 3 "
+          "pre-emptions, 2.5k-11k schedules); every execution's event log is judged by TLC. AsDict.tla's 1024-row decision table "
+          "(keys, ad_value, NoSuchProcess, ValueError/TypeError before any OS access) is replayed row by row."),
+    note=TB + " CPython's threading/sys.settrace behaviour; Process._lock replaced by a cooperative lock from outside.")
+CHECKS["C09"] = dict(technique=FN, category="model_checking", ref="DESIGN.md section 3 C09",
+    text=("IoCounters.tla states the per-device and system-wide answers for abstract /proc/net/dev tables, /proc/diskstats "
+          "listings in the five line layouts (per kernel generation) with the /sys/block set, and statvfs quadruples; 15 "
+          "structural invariants (layout-agnostic decoding, totals = sum over whole disks, None/{} convention, 0 <= percent <= 100) "
+          "are checked by TLC over the enumerated space (715 classes quick, 4053 thorough); every pair is replayed through "
+          "net_io_counters/disk_io_counters (4 forms) and disk_usage over simkernel at scales up to 2^64-1, and 4k-60k random "
+          "records are judged by TLC (with accept/reject canaries)."),
+    note=TB + " Signed finding: the 15-field (Linux 2.4) layout is decoded one column early (an existing unit test pins that mapping).")
+
 PENDING = "check under construction in this round (see DESIGN.md section 6 work order)"
 NA = {}
 
